@@ -143,3 +143,23 @@ def exit_data_contract():
              ensures=["implies(not old(cid in self.exit_sockets), len(trace()) == 0)", "len(calls('sendto')) <= 1"],
              covers=["len(calls('enable')) == 1", "len(calls('sendto')) == 1"],
              note="unknown circuit: nothing; the socket is enabled - and first data emitted - only from the previous hop's IP address")
+
+
+# ---------------------------------------------------------------------------------------------------------------------
+# shared by C09 (tunnel state is reclaimed: the outside sockets are state) and C11 (an unloaded overlay holds no socket)
+def exit_socket_close_contract():
+    TRANSPORT = EFFECT("transport", close={}, sendto={}, is_closing={"returns": BOOL})   # noqa: N806
+    TM = "ipv8/taskmanager.py"   # noqa: N806
+    contract(f"{ES}::TunnelExitSocket.close", "close.releases-every-owned-transport",
+             vars={"t4": TRANSPORT, "t6": EFFECT("transport6", close={}, sendto={}),
+                   "self": ROUTING(f"{ES}::TunnelExitSocket", hop=HOP(), enabled=BOOL, overlay=EFFECT("overlay"),
+                                   transport_ipv4=EXPR("t4 if had4 else None"), transport_ipv6=EXPR("t6 if had6 else None"),
+                                   queue=EXPR("deque(maxlen=10)"))},
+             instances=[{"had4": a, "had6": b} for a in (False, True) for b in (False, True)],
+             call="run_coro(self.close())", raises=[],
+             stubs={f"{TM}::TaskManager.shutdown_task_manager": {"event": "shutdown_task_manager", "returns": EXPR("None"),
+                                                                 "note": "own contract above (cancels every pending task, closes the gate)"}},
+             ensures=["self.transport_ipv4 is None and self.transport_ipv6 is None",
+                      "len(calls('transport.close')) == (1 if had4 else 0)", "len(calls('transport6.close')) == (1 if had6 else 0)",
+                      "len(calls('shutdown_task_manager')) == 1"],
+             note="close() stops the socket's tasks and closes BOTH outside sockets, whichever of them exist")
